@@ -29,6 +29,7 @@ type Config struct {
 	IfaceContracts map[string]*Contract // "IfaceName.Method" -> contract
 	Resolver     func(iface types.Type, method string) *ssa.Function
 	Debug        bool
+	StrictExternals bool // abort instead of havoc on unmodelled externals
 	DecAbstract  bool // two-symbolic-operand Dec products/quotients become uninterpreted with sign/zero/unit facts
 	EnvRef       *Env
 	// LoopInv: loop-header block invariants of the function under contract (by header index)
@@ -75,8 +76,12 @@ type Exec struct {
 	recovering []*frame
 	Calls     []string // log of notable call events on this path (mint/burn/send sites etc.)
 	rowInvDone map[string]bool
+	forceMemo map[*LazyV]Val
+	sliceMemo map[*LazyV]*SliceV
 	UsedContracts map[string]bool
 	TopKey    string
+	Externals map[string]bool
+	TopForalls []*smt.Term
 }
 
 func (ex *Exec) abort(format string, a ...interface{}) {
@@ -160,11 +165,40 @@ func (ex *Exec) site(label string) string {
 }
 
 func (ex *Exec) oblige(name string, goal *smt.Term, note string) {
+	goal = ex.simplifyUnder(goal)
 	if goal.IsTrue() {
 		ex.Obligs = append(ex.Obligs, &Oblig{Name: name, Goal: goal, Note: note})
 		return
 	}
 	ex.Obligs = append(ex.Obligs, &Oblig{Name: name, Hyps: append([]*smt.Term(nil), ex.pc...), Goal: goal, Path: ex.pathString(), Note: note})
+}
+
+// simplifyUnder rewrites a goal with the literals the path condition asserts (unit facts).
+func (ex *Exec) simplifyUnder(goal *smt.Term) *smt.Term {
+	if goal.IsTrue() || goal.IsFalse() {
+		return goal
+	}
+	m := map[*smt.Term]*smt.Term{}
+	for _, p := range ex.pc {
+		switch {
+		case p.Op == "not":
+			m[p.Args[0]] = smt.False
+		case p.Op == "and":
+			for _, a := range p.Args {
+				if a.Op == "not" {
+					m[a.Args[0]] = smt.False
+				} else if a.Sort == smt.Bool && a.Op != "forall" {
+					m[a] = smt.True
+				}
+			}
+		case p.Op != "forall" && p.Op != "or" && p.Op != "=>" && p.Op != "ite":
+			m[p] = smt.True
+		}
+	}
+	if len(m) == 0 {
+		return goal
+	}
+	return smt.Subst(goal, m)
 }
 
 func (ex *Exec) pathString() string {
@@ -298,6 +332,25 @@ func (ex *Exec) force(v Val) Val {
 	if !ok {
 		return v
 	}
+	// the expansion of one lazy value is memoised by identity: copies of a struct share the
+	// expansion (hence the backing arrays of nested slices), separately decoded rows do not
+	if r, ok := ex.forceMemo[lz]; ok {
+		if s, ok := r.(*StructV); ok {
+			return s.Copy()
+		}
+		return r
+	}
+	r := ex.force1(lz)
+	if _, still := r.(*LazyV); !still {
+		ex.forceMemo[lz] = r
+		if s, ok := r.(*StructV); ok {
+			return s.Copy()
+		}
+	}
+	return r
+}
+
+func (ex *Exec) force1(lz *LazyV) Val {
 	t := types.Unalias(lz.T)
 	nm := lz.Nm
 	if isSdkCtx(t) {
@@ -362,6 +415,15 @@ func (ex *Exec) boundFor(name string) int {
 	return ex.Cfg.DefaultBound
 }
 
+// revealed: some copy of this symbolic collection has been materialised on this path.
+func (ex *Exec) revealed(lz *LazyV) bool {
+	if _, ok := ex.sliceMemo[lz]; ok {
+		return true
+	}
+	_, ok := ex.lenChoice[lz.Nm.Sub("len").Leaf(smt.Int).String()]
+	return ok
+}
+
 // forceSlice materialises a lazy slice with a bounded, forked length.
 func (ex *Exec) forceSlice(v Val) *SliceV {
 	switch s := v.(type) {
@@ -370,6 +432,21 @@ func (ex *Exec) forceSlice(v Val) *SliceV {
 	case *CoinsV:
 		return ex.coinsToSlice(s)
 	case *LazyV:
+		if r, ok := ex.sliceMemo[s]; ok {
+			return r
+		}
+		r := ex.forceSlice1(s)
+		ex.sliceMemo[s] = r
+		return r
+	case *NilV:
+		return &SliceV{T: s.T}
+	}
+	ex.abort("forceSlice on %T", v)
+	return nil
+}
+
+func (ex *Exec) forceSlice1(s *LazyV) *SliceV {
+	{
 		st, ok := s.T.Underlying().(*types.Slice)
 		if !ok {
 			ex.abort("forceSlice on %s", s.T)
@@ -395,11 +472,7 @@ func (ex *Exec) forceSlice(v Val) *SliceV {
 			arr.Elems = append(arr.Elems, &Cell{V: el, T: st.Elem(), Name: fmt.Sprintf("%s[%d]", nm.Prefix, i)})
 		}
 		return &SliceV{Arr: arr, Len: n, Cap: n, T: s.T}
-	case *NilV:
-		return &SliceV{T: s.T}
 	}
-	ex.abort("forceSlice on %T", v)
-	return nil
 }
 
 // coinsToSlice gives an abstract coin collection a concrete (bounded) slice view: valid
